@@ -1,7 +1,8 @@
 (* Corr/C04.v — comparison functions used by the generated cases_C04_*.v files.
 
    Two kinds of cases:
-   * [CaseProg]: a compiled graph (as a [prog]) called through its four public paradigms on
+   * [CaseProg]: a compiled graph (as an [sprog], the first-order description of the harness
+     graph; [compile_sprog] is the [prog] the theorems talk about) called through its four public paradigms on
      one chunking of one input.  Observed per paradigm: the value (streams concatenated by
      the harness with eino's own concatenation) or "failed" (call-time error, error item —
      not distinguished: the property allows either).  Observed for the Invoke run and for
@@ -11,7 +12,7 @@
      (hook VerifPack): results, exact output chunk lists and the native used per view.
 
    Error messages are never compared. *)
-From Eino Require Import Base.Util Model.Paradigm Model.StreamOps Model.ParadigmProg.
+From Eino Require Import Base.Util Model.Paradigm Model.StreamOps Model.ParadigmProg Model.ParadigmSpec.
 
 Inductive robs : Type := RVal (v : val) | RFail.
 
@@ -82,25 +83,25 @@ Fixpoint nn_eqb (a b : list (N * N)) : bool :=
   end.
 
 Inductive ccase : Type :=
-| CaseProg (p : prog) (chunks : list val)
+| CaseProg (sp : sprog) (chunks : list val)
            (oI oS oC oT : robs)
            (calls : option (list (N * N) * list (N * N)))   (* Invoke run, Stream run; sorted by node id *)
 | CasePack (sp : nspec) (chunks : list val)
            (oI : robs) (oS : sobs) (oC : robs) (oT : sobs)
            (used4 : list N).
 
-Definition seq_mrg (_ : list nat) (ls : list (stream val)) : stream val := merge_seq ls.
-
 Definition bad (c : ccase) : bool :=
   match c with
-  | CaseProg p chunks oI oS oC oT calls =>
+  | CaseProg sp chunks oI oS oC oT calls =>
       let s := map Val chunks in
+      let p := compile_sprog sp in
       match vsconcat s with
       | Ok x =>
           (* outside the property's domain (a fan-in with a shared key: F-C04) the value a
              stream run delivers depends on the interleaving: class only *)
           let exact := dom_ok p x in
-          negb (robs_eqb true (robs_of (g_invoke p x)) oI
+          (* [sprog_wf]: the case satisfies the hypotheses of harness_graphs_agree *)
+          negb (sprog_wf sp && robs_eqb true (robs_of (g_invoke p x)) oI
                 && robs_eqb exact (robs_of (vsconcatR (g_stream seq_mrg p x))) oS
                 && robs_eqb exact (robs_of (g_collect seq_mrg p s)) oC
                 && robs_eqb exact (robs_of (vsconcatR (g_transform seq_mrg p s))) oT
@@ -117,7 +118,7 @@ Definition bad (c : ccase) : bool :=
       let n := node_of_spec sp in
       match vsconcat s with
       | Ok x =>
-          negb (robs_eqb true (robs_of (view_I vconcat n x)) oI
+          negb (spec_wf sp && robs_eqb true (robs_of (view_I vconcat n x)) oI
                 && sobs_eqb (sobs_of (view_S n x)) oS
                 && robs_eqb true (robs_of (view_C vconcat vconcat n s)) oC
                 && sobs_eqb (sobs_of (view_T vconcat n s)) oT
